@@ -124,6 +124,15 @@ func TestDriver(t *testing.T) {
 		// the second half of the random histories contains computed-but-never-committed blocks
 		runModule(res, tr, fmt.Sprintf("rnd-%d", i), randomHistory(r, mode, i >= nr/2))
 	}
+	// archival mode (no reference counters): the same histories with computed-but-never-committed blocks; judged on
+	// what the stored roots give back only
+	na := vh.EnvInt("VERIF_ARCHIVAL", nr/4)
+	for i := 0; i < na; i++ {
+		h := randomHistory(r, "gc", true)
+		h.Mode = "all"
+		runModule(res, tr, fmt.Sprintf("all-%d", i), h)
+	}
+	res.Inc("archival_histories", na)
 	// the same kind of histories through single Put / Delete calls on mpt.Trie (no dropped blocks there)
 	nt := vh.EnvInt("VERIF_TRIE", nr/3)
 	for i := 0; i < nt; i++ {
